@@ -1,6 +1,7 @@
 package main
 
 import (
+	"fmt"
 	"go/token"
 	"go/types"
 	"math/big"
@@ -30,6 +31,7 @@ import (
 type linProver struct {
 	b       *ssa.BasicBlock
 	ptrBits int
+	depth   int // nesting of summary computations
 	atoms   []linAtom
 	cons    []linCon // each: sum coef[i]*atom[i] + k <= 0
 	busy    map[ssa.Value]bool
@@ -99,6 +101,7 @@ func linProverAt(b *ssa.BasicBlock, ptrBits int) *linProver {
 	p := &linProver{b: b, ptrBits: ptrBits, busy: map[ssa.Value]bool{}}
 	linProvers[b] = p
 	p.collectGuards()
+	p.collectExecuted()
 	return p
 }
 
@@ -166,6 +169,23 @@ func (p *linProver) lenAtom(x ssa.Value, call ssa.Value) int {
 	if lr.lo > 0 {
 		p.addLE(linConst(lr.lo), self)
 	}
+	// result of a repository call whose error has been tested: only the
+	// successful returns count
+	if ex, ok := x.(*ssa.Extract); ok {
+		if cl, ok := ex.Tuple.(*ssa.Call); ok {
+			if f := cl.Call.StaticCallee(); f != nil && len(f.Blocks) > 0 {
+				if ei := errResultIndex(f); ei >= 0 && ei != ex.Index && errNilAt(cl, ei, p.b) {
+					or := returnLenRange(f, ex.Index, ei, true, p.ptrBits, 1)
+					if or.hi != posInf {
+						p.addLE(self, linConst(or.hi))
+					}
+					if or.lo > 0 {
+						p.addLE(linConst(or.lo), self)
+					}
+				}
+			}
+		}
+	}
 	if call != nil {
 		r := rangeAt(call, p.b, p.ptrBits)
 		if r.hi != posInf {
@@ -177,6 +197,24 @@ func (p *linProver) lenAtom(x ssa.Value, call ssa.Value) int {
 	}
 	// length known by construction
 	switch m := stripChangeOnly(x).(type) {
+	case *ssa.Slice:
+		// len(y[l:h]) = h - l (h defaults to len(y), l to 0), for slices and strings
+		if _, isArr := arrayLen(m.X.Type()); !isArr && m.Max == nil && !p.busy[m] {
+			p.busy[m] = true
+			var hi linForm2
+			if m.High != nil {
+				hi = p.toLin(m.High, 0)
+			} else {
+				hi = newLin()
+				hi.coef[p.lenAtom(m.X, nil)] = new(big.Rat).Set(ratOne)
+			}
+			if m.Low != nil {
+				hi = hi.addScaled(p.toLin(m.Low, 0), ratMinusOne)
+			}
+			delete(p.busy, m)
+			p.addLE(self, hi)
+			p.addLE(hi, self)
+		}
 	case *ssa.MakeSlice:
 		if !p.busy[m] {
 			p.busy[m] = true
@@ -207,6 +245,127 @@ func (p *linProver) atomFacts(idx int, v ssa.Value) {
 	}
 	if r.hi != posInf {
 		p.addLE(self, linConst(r.hi))
+	}
+	// results of calls: a library contract and summaries of repository functions
+	if ex, ok := v.(*ssa.Extract); ok {
+		if cl, ok := ex.Tuple.(*ssa.Call); ok {
+			p.callResultFacts(self, cl, ex.Index)
+		}
+	}
+}
+
+// callResultFacts: relations between result idx of the call and the lengths of
+// its slice arguments.
+func (p *linProver) callResultFacts(self linForm2, cl *ssa.Call, idx int) {
+	f := cl.Call.StaticCallee()
+	if f == nil {
+		return
+	}
+	lenOfArg := func(a ssa.Value) linForm2 {
+		l := newLin()
+		l.coef[p.lenAtom(a, nil)] = new(big.Rat).Set(ratOne)
+		return l
+	}
+	if f.Pkg != nil && f.Pkg.Pkg.Path() == "encoding/binary" && (f.Name() == "Varint" || f.Name() == "Uvarint") && idx == 1 && len(cl.Call.Args) == 1 {
+		// documented: n bytes were read from buf (n <= len(buf)); n <= 0 on failure
+		p.addLE(self, lenOfArg(cl.Call.Args[0]))
+		return
+	}
+	if len(f.Blocks) == 0 || p.depth >= 2 {
+		return
+	}
+	ei := errResultIndex(f)
+	okOnly := ei >= 0 && ei != idx && errNilAt(cl, ei, p.b)
+	for _, j := range retLeLenParams(f, idx, ei, okOnly, p.ptrBits, p.depth) {
+		if j < len(cl.Call.Args) {
+			p.addLE(self, lenOfArg(cl.Call.Args[j]))
+		}
+	}
+}
+
+var retLeLenMemo = map[string][]int{}
+
+// retLeLenParams: the indexes j of slice/string parameters of f for which
+// result idx <= len(param j) is entailed at every return (okOnly: at every
+// return whose error result can be nil).
+func retLeLenParams(f *ssa.Function, idx, ei int, okOnly bool, ptrBits, depth int) []int {
+	key := fmt.Sprintf("%p/%d/%v/%d", f, idx, okOnly, ptrBits)
+	if r, ok := retLeLenMemo[key]; ok {
+		return r
+	}
+	retLeLenMemo[key] = nil // recursion guard
+	if idx >= f.Signature.Results().Len() {
+		return nil
+	}
+	if _, _, ok := isIntegerType(f.Signature.Results().At(idx).Type()); !ok {
+		return nil
+	}
+	var out []int
+	for j, prm := range f.Params {
+		switch u := prm.Type().Underlying().(type) {
+		case *types.Slice:
+		case *types.Basic:
+			if u.Info()&types.IsString == 0 {
+				continue
+			}
+		default:
+			continue
+		}
+		all, n := true, 0
+		for _, b := range f.Blocks {
+			ret, ok := b.Instrs[len(b.Instrs)-1].(*ssa.Return)
+			if !ok || idx >= len(ret.Results) {
+				continue
+			}
+			if okOnly && ei < len(ret.Results) && definitelyNonNilErr(ret.Results[ei], 0) {
+				continue
+			}
+			n++
+			q := &linProver{b: b, ptrBits: ptrBits, busy: map[ssa.Value]bool{}, depth: depth + 1}
+			q.collectGuards()
+			q.collectExecuted()
+			ll := newLin()
+			ll.coef[q.lenAtom(prm, nil)] = new(big.Rat).Set(ratOne)
+			if !q.entailsLE(q.toLin(ret.Results[idx], 0), ll) {
+				all = false
+				break
+			}
+		}
+		if all && n > 0 {
+			out = append(out, j)
+		}
+	}
+	retLeLenMemo[key] = out
+	return out
+}
+
+// collectExecuted adds what the instructions that must have executed before
+// the block say: an index expression x[i] on a slice or string in a strictly
+// dominating block did not panic, so 0 <= i < len(x).
+func (p *linProver) collectExecuted() {
+	for d := p.b.Idom(); d != nil; d = d.Idom() {
+		for _, ins := range d.Instrs {
+			var base, idx ssa.Value
+			switch x := ins.(type) {
+			case *ssa.IndexAddr:
+				base, idx = x.X, x.Index
+			case *ssa.Lookup:
+				if bt, ok := x.X.Type().Underlying().(*types.Basic); ok && bt.Info()&types.IsString != 0 {
+					base, idx = x.X, x.Index
+				}
+			}
+			if base == nil {
+				continue
+			}
+			if _, ok := arrayLen(base.Type()); ok {
+				continue
+			}
+			li := p.toLin(idx, 0)
+			ll := newLin()
+			ll.coef[p.lenAtom(base, nil)] = new(big.Rat).Set(ratOne)
+			p.addLE(li.addScaled(linConst(1), ratOne), ll)
+			p.addLE(linConst(0), li)
+		}
 	}
 }
 
@@ -624,7 +783,27 @@ func lenRangeOf1(x ssa.Value, ptrBits, depth int) ival {
 		if hi < 0 {
 			hi = 0
 		}
-		return ival{lo: 0, hi: hi}
+		// lower bound: (high or len(x)) - low
+		lo := int64(0)
+		top := int64(0)
+		if v.High != nil {
+			if hr := rangeAt(v.High, v.Block(), ptrBits); hr.lo > 0 {
+				top = hr.lo
+			}
+		} else if n, ok := arrayLen(v.X.Type()); ok {
+			top = n
+		} else {
+			top = lenRangeOf(v.X, ptrBits, depth+1).lo
+		}
+		if v.Low == nil {
+			lo = top
+		} else if lr := rangeAt(v.Low, v.Block(), ptrBits); lr.hi != posInf && lr.hi >= 0 && top-lr.hi > 0 {
+			lo = top - lr.hi
+		}
+		if lo > hi {
+			lo = hi
+		}
+		return ival{lo: lo, hi: hi}
 	case *ssa.Phi:
 		j := ival{lo: posInf, hi: 0}
 		for _, e := range v.Edges {
@@ -646,23 +825,39 @@ func lenRangeOf1(x ssa.Value, ptrBits, depth int) ival {
 	case *ssa.Extract:
 		if cl, ok := v.Tuple.(*ssa.Call); ok {
 			if f := cl.Call.StaticCallee(); f != nil && len(f.Blocks) > 0 {
-				return returnLenRange(f, v.Index, ptrBits, depth+1)
+				return returnLenRange(f, v.Index, -1, false, ptrBits, depth+1)
 			}
 		}
 	case *ssa.Call:
+		if bi, ok := v.Call.Value.(*ssa.Builtin); ok && bi.Name() == "append" && len(v.Call.Args) == 2 {
+			// append(s, e1..ek): at least len(s)+k elements
+			base := lenRangeOf(v.Call.Args[0], ptrBits, depth+1)
+			add := lenRangeOf(v.Call.Args[1], ptrBits, depth+1)
+			lo := base.lo + add.lo
+			hi := int64(posInf)
+			if base.hi != posInf && add.hi != posInf {
+				hi = base.hi + add.hi
+			}
+			return ival{lo: lo, hi: hi}
+		}
 		if f := v.Call.StaticCallee(); f != nil && len(f.Blocks) > 0 && f.Signature.Results().Len() == 1 {
-			return returnLenRange(f, 0, ptrBits, depth+1)
+			return returnLenRange(f, 0, -1, false, ptrBits, depth+1)
 		}
 	}
 	return full
 }
 
-func returnLenRange(f *ssa.Function, idx, ptrBits, depth int) ival {
+// returnLenRange: okOnly restricts the join to the returns whose error result
+// (index ei) can be nil.
+func returnLenRange(f *ssa.Function, idx, ei int, okOnly bool, ptrBits, depth int) ival {
 	j := ival{lo: posInf, hi: 0}
 	n := 0
 	for _, b := range f.Blocks {
 		ret, ok := b.Instrs[len(b.Instrs)-1].(*ssa.Return)
 		if !ok || idx >= len(ret.Results) {
+			continue
+		}
+		if okOnly && ei >= 0 && ei < len(ret.Results) && definitelyNonNilErr(ret.Results[ei], 0) {
 			continue
 		}
 		n++
